@@ -92,6 +92,10 @@ func (m *machine) checkC24() string {
 			if !before("cancel-issued", "") {
 				return fmt.Sprintf("call %d returned context.Canceled but was not cancelled", c.idx)
 			}
+		case errors.Is(err, context.DeadlineExceeded):
+			if c.deadline == 0 || m.log[ret].at < c.deadline {
+				return fmt.Sprintf("call %d returned a deadline error at %v, its deadline is %v", c.idx, m.log[ret].at, c.deadline)
+			}
 		case errors.Is(err, errSendFailed):
 			if !hasOutcome(c, "fail") {
 				return fmt.Sprintf("call %d returned a send failure that was never injected", c.idx)
@@ -178,7 +182,7 @@ func (m *machine) classList() []string {
 	var out []string
 	for _, k := range []string{"result-races-cancel-or-close", "duplicate-result", "result-after-return", "foreign-result",
 		"parked:notify-result", "parked:notify-error", "parked:before-decode", "parked:do-wait", "parked:do-drop", "parked:in-decode",
-		"batched-ack", "same-id-reissued", "result-must-complete", "parked:log", "close-during-blocked-resend", "close-between-send-and-ack", "close-between-ack-and-result", "close-while-send-blocked", "cancel-after-send", "cancel-before-send", "start-after-close"} {
+		"batched-ack", "same-id-reissued", "result-must-complete", "parked:log", "ended-by-deadline", "close-during-blocked-resend", "close-between-send-and-ack", "close-between-ack-and-result", "close-while-send-blocked", "cancel-after-send", "cancel-before-send", "start-after-close"} {
 		if m.classes[k] {
 			out = append(out, k)
 		}
@@ -221,13 +225,17 @@ func (m *machine) checkC26() string {
 		}
 		// drop requests: exactly one iff the call was cancelled and its request had been sent
 		wantDrops := 0
-		if c.err == context.Canceled && c.firstSend == "ok" {
+		byContext := c.err == context.Canceled || errors.Is(c.err, context.DeadlineExceeded)
+		if byContext && c.firstSend == "ok" {
 			wantDrops = 1
+		}
+		if errors.Is(c.err, context.DeadlineExceeded) {
+			m.classes["ended-by-deadline"] = true
 		}
 		if c.drops != wantDrops {
 			return fmt.Sprintf("call %d (err=%v, first send=%s): %d drop requests, want %d", c.idx, c.err, c.firstSend, c.drops, wantDrops)
 		}
-		if c.err == context.Canceled {
+		if byContext {
 			if c.firstSend == "ok" {
 				m.classes["cancel-after-send"] = true
 			} else {
@@ -252,6 +260,9 @@ func (m *machine) checkC26() string {
 		}
 		if issuedBefore("cancel-issued") || issuedBefore("result-issued") || issuedBefore("error-issued") {
 			continue // other outcomes are legitimate
+		}
+		if c.deadline > 0 && c.deadline <= m.log[closeIdx].at {
+			continue // the call's own deadline had passed before the close: it was already ending
 		}
 		if c.firstSend != "ok" {
 			if c.firstSend == "block" {
